@@ -94,7 +94,8 @@ class StoreHandler:
     """Answers requests from a store {url: (bytes, mtime)} with an optional fault plan
     {(url, attempt_index): fault} and an optional version switch."""
 
-    def __init__(self, stores, plan=None, switch_after=None):
+    def __init__(self, stores, plan=None, switch_after=None, catch_all=False):
+        self.catch_all = catch_all  # C06: any URL with a '..' component is answered, so that a write would happen
         self.stores = stores if isinstance(stores, list) else [stores]
         self.plan = plan or {}
         self.switch_after = switch_after  # number of requests after which the next store is served
@@ -121,6 +122,9 @@ class StoreHandler:
             return Resp("error")
         if fault == "reconnect":
             return Resp("retry")
+        if obj is None and self.catch_all and ("/../" in url or url.endswith("/..")):
+            obj = (b"served-to-a-traversal-request", 1230768000)
+            self.catch_all_served = getattr(self, "catch_all_served", 0) + 1
         if obj is None:
             return Resp("missing")
         data, mtime = obj
